@@ -125,6 +125,9 @@ def concrete(shape, name, g):
         from elftools.construct.lib.container import Container
         if shape.kind == 'Container':
             return Container(**{k: concrete(s, name + '.' + k, g) for k, s in shape.fields.items()})
+        cls = _class_index().get(shape.kind)
+        if cls is not None and hasattr(cls, '_fields'):
+            return cls(**{k: concrete(s, name + '.' + k, g) for k, s in shape.fields.items()})
         raise NativeUnavailable('record kind %s' % shape.kind)
     if isinstance(shape, S.Opt):
         isn = g.get(name + '.isnone')
@@ -362,6 +365,8 @@ def _run_once(c, func, g, exprs):
         args = {p: concrete(s, p, g) for p, s in params.items()}
     except NativeUnavailable as e:
         return dict(status='unavailable', why=str(e))
+    except Exception as e:
+        return dict(status='unavailable', why='cannot build native arguments: %r' % (e,))
     try:
         from specs import k1_native
         k1_native.set_cfg_from(list(args.values()))
